@@ -34,6 +34,10 @@ CHECKS = {
    "Trusted: the reference model in sim/c04.go (about 60 lines), declared types recorded from ResolveInfo.ReturnType in the fault-free run. Soft faults (wrong Go kind at a nullable leaf, NaN, out-of-range, unknown enum value) accept null or a kind-conformant leaf.",
    "enumerated callback-fault plans against a null-propagation reference model", "§5 C04"),
 }
+CHECKS["C12"] = ("exploration",
+   "Every request of a 31-request pool (valid, invalid, failing at execution incl. several failing deferred values and panicking extension hooks, introspection) is executed and validated under 12 map-iteration-order policies on the same schema and on schemas rebuilt under each policy (enumerated), and after seeded histories of other requests through Do / a shared plan cache / prepared plans (sampled); the marshalled JSON must be byte-identical to the reference response.",
+   "Trusted: the map-order seam (tools/maporder rewrites every range-over-map of the library; 0 uncontrolled loops is asserted in the evidence); any permutation is admissible because Go leaves the order unspecified. Not covered: Go runtime nondeterminism other than map order and select.",
+   "controlled hash-map iteration order (seeded permutations) + seeded request histories, byte-equality oracle", "§5 C12")
 REASONS_PENDING = "claimed in DESIGN.md; the check is still under construction and is therefore not registered yet"
 ALL = ["C%02d" % i for i in range(1, 21)]
 hooks_commit = "0e04175"
